@@ -124,6 +124,9 @@ pub fn install_panic_hook() {
             "?".into()
         };
         let short: String = msg.chars().take(160).collect();
+        if std::env::var_os("ASEVER_PANIC_TRACE").is_some() {
+            eprintln!("asever: panic: {} @ {}", short, loc);
+        }
         PANIC_INFO.with(|p| *p.borrow_mut() = Some(format!("{} @ {}", short, loc)));
     }));
 }
